@@ -239,6 +239,40 @@ def run(ctx):
              "sizeof of the destination object; sprintf output is bounded by the "
              "format and the argument types/callers", floor=8)
     literal_callers = _callers_with_literal(funcs)
+    # dynamically sized CPU sets: a set obtained from CPU_ALLOC(n) is CPU_ALLOC_SIZE(n)
+    # bytes long, whereas the plain CPU_SET/CPU_CLR/CPU_ISSET/CPU_ZERO/CPU_COUNT macros
+    # address sizeof(cpu_set_t) = 128 bytes: only the *_S forms may touch it.  (Macros
+    # are gone from clang's AST, so this instance reads the function text.)
+    from ..core import ctext as T
+    import os as _os
+    PLAIN = ("CPU_SET", "CPU_CLR", "CPU_ISSET", "CPU_ZERO", "CPU_COUNT", "CPU_AND", "CPU_OR",
+             "CPU_XOR", "CPU_EQUAL")
+    nalloc = 0
+    for file, fn in funcs:
+        path = _os.path.join(ctx.repo, fn["_file"])
+        try:
+            src = T.strip_comments(open(path, errors="replace").read())
+        except OSError:
+            continue
+        body = T.function_body(src, fn["name"])
+        if not body or "CPU_ALLOC" not in body:
+            continue
+        dyn = set(re.findall(r"\b(\w+)\s*=\s*CPU_ALLOC\s*\(", body))
+        for v in sorted(dyn):
+            nalloc += 1
+            bad = [(m, a) for m in PLAIN for a, _ in T.calls(body, m)
+                   if any(re.search(r"\b" + re.escape(v) + r"\b", x) for x in a)]
+            key = f"{fn['name']}:cpuset:{v}"
+            if bad:
+                m, a = bad[0]
+                ctx.fail("C17.R3", key, fn["_file"], fn["_line"], fn["name"],
+                         f"`{m}({', '.join(a)})` on `{v}`, which was sized by CPU_ALLOC(): the "
+                         f"plain macro bounds-checks against sizeof(cpu_set_t) (1024 CPUs), not "
+                         f"against the allocation - a CPU number beyond the allocated words "
+                         f"reads/writes past the heap block; use {m}_S")
+            else:
+                ctx.ok("C17.R3", key, sample=f"{v} = CPU_ALLOC(..): only *_S macros touch it")
+    ctx.require(nalloc >= 1, "no CPU_ALLOC'd set found (cpu_affinity_get used one)")
     for file, fn in funcs:
         for n in C.walk(fn):
             if n.get("kind") != "CallExpr":
@@ -915,12 +949,31 @@ def _r7(ctx, funcs):
     ntc = [c for c in calls_in(dp.node) if dotted(c.func) == "_common.sdiskpart"]
     nargs = [dotted(a) for a in ntc[0].args] if ntc else []
     cfg = A.cfg(dp)
-    filt = False
+    # the row is skipped exactly when `not all and (not device or fstype not in
+    # fstypes)`: decided on the truth table of the guards of the `continue`s, so the
+    # spelling (nested ifs, De Morgan, two separate tests) does not matter
+    from ..core.astutil import guard_truth_table
+    skip = {}
+    want_atoms = ["all", "device", "fstype in fstypes"]
+    okshape = True
+    nskip = 0
     for n in cfg.nodes:
         if n.kind == "stmt" and isinstance(n.stmt, ast.Continue):
-            g = [(norm_stmt(e).replace(" ", ""), p) for e, p, _ in cfg.guards(n)]
-            if ("notall", True) in g and ("notdeviceorfstypenotinfstypes", True) in g:
-                filt = True
+            nskip += 1
+            names_, tb = guard_truth_table([(e, p) for e, p, _ in cfg.guards(n)
+                                                   if p in (True, False)])
+            if tb is None or not set(names_) <= set(want_atoms):
+                okshape = False
+                continue
+            for vals, v in tb.items():
+                env = dict(zip(names_, vals))
+                for full in __import__("itertools").product((False, True), repeat=3):
+                    fe = dict(zip(want_atoms, full))
+                    if all(fe[k] == env[k] for k in env):
+                        skip[full] = skip.get(full, False) or v
+    filt = okshape and nskip > 0 and all(
+        skip.get((a, d, f), False) == ((not a) and ((not d) or (not f)))
+        for a in (False, True) for d in (False, True) for f in (False, True))
     if roles == ["mnt_fsname", "mnt_dir", "mnt_type", "mnt_opts"] and \
             names == ["device", "mountpoint", "fstype", "opts"] and nargs == names and filt:
         ctx.ok("C17.R7", "disk_partitions", sample={"C": roles, "python": names,
